@@ -159,48 +159,108 @@ def check_fresh(rep, db, f, inst):
 
 
 def check_find_use(rep, db, f, inst, use):
+    """remove_app_ptr / lookup_index: every search of the table is for the given token, the token's presence is established by an abort
+    check, and the element erased / returned is the one stored under the token.  Accepted spellings of the search: find (result != end),
+    lower_bound (result != end and result->first == token), count/contains (!= 0), erase by key (number removed != 0)."""
     ps = Engine(db).run(f)
     idx = ("p", f["params"][0]["n"])
+    on_map = lambda e: e.c is not None and "pointer_map" in fmt(e.c)
     for p in ps:
         evs = p.events
-        finds = [i for i, e in enumerate(evs) if e.kind == "CALL" and q.short(e.a) == "find" and e.c is not None and "pointer_map" in fmt(e.c)]
-        if len(finds) != 1 or strip_casts(argvals(evs[finds[0]])[0]) != idx:
-            rep.violation("R-C15-table", site(f), "the table is not searched exactly once for the given token", f["loc"], inst)
+        searches = []
+        for i, e in enumerate(evs):
+            if e.kind != "CALL" or not on_map(e):
+                continue
+            sh = q.short(e.a)
+            if sh in ("find", "lower_bound", "count", "contains", "at", "operator[]"):
+                searches.append(i)
+            elif sh == "erase" and len(argvals(e)) == 1 and strip_casts(argvals(e)[0]) == idx:
+                searches.append(i)
+            elif sh in ("upper_bound", "equal_range", "extract"):
+                rep.violation("R-C15-table", site(f), "the table is searched with %s (not one of the spellings this rule can decide)" % sh, f["loc"], inst)
+                return
+        if not searches or any(not argvals(evs[i]) or strip_casts(argvals(evs[i])[0]) != idx for i in searches):
+            rep.violation("R-C15-table", site(f), "the table is not searched for the given token", f["loc"], inst)
             return
-        fr = (evs[finds[0]].extra or {}).get("ret")
+        aborts = [(i, e) for i, e in enumerate(evs) if e.kind == "ASSUME" and (e.extra or {}).get("abort_check")]
 
-        def same(x):
-            # the search result, also through copies and the iterator -> const_iterator converting constructor
-            for _ in range(6):
-                if x == fr:
-                    return True
-                if not (isinstance(x, tuple) and x[:1] in (("var",), ("tmp",))):
-                    return False
-                c_ = p.state.mem.get(("copyof", x))
-                if c_ is None:
-                    conv = next((e_ for e_ in evs if e_.kind == "CALL" and (e_.extra or {}).get("ret") == x and "iterator" in q.short(e_.a).lower() and len(e_.b) == 1), None)
-                    c_ = conv.b[0] if conv is not None else None
-                if c_ is None:
-                    return False
-                x = c_
-            return False
-        # the comparison with end() may be written either way round (`it != end` asserted, or `it == end` aborting)
-        chk = [i for i, e in enumerate(evs) if e.kind == "ASSUME" and i > finds[0] and (e.extra or {}).get("abort_check") and q.mentions(e.a, same) and
-               q.mentions(e.a, lambda x: isinstance(x, tuple) and x[:1] == ("ucall",) and q.short(x[2]) in ("operator!=", "operator=="))]
-        if not chk:
+        def same_as(fr):
+            def same(x):
+                # the search result, also through copies and the iterator -> const_iterator converting constructor
+                for _ in range(6):
+                    if x == fr:
+                        return True
+                    if not (isinstance(x, tuple) and x[:1] in (("var",), ("tmp",))):
+                        return False
+                    c_ = p.state.mem.get(("copyof", x))
+                    if c_ is None:
+                        conv = next((e_ for e_ in evs if e_.kind == "CALL" and (e_.extra or {}).get("ret") == x and "iterator" in q.short(e_.a).lower() and len(e_.b) == 1), None)
+                        c_ = conv.b[0] if conv is not None else None
+                    if c_ is None:
+                        return False
+                    x = c_
+                return False
+            return same
+
+        def nonzero(t, after):
+            # abort check that the count t is not zero
+            forms = (("cmp", "!=", t, C(0)), ("cmp", "==", t, C(1)), ("cmp", "<", C(0), t), ("cmp", "<=", C(1), t))
+            return [i for i, e in aborts if i > after and q.same_observer_calls(e.a) in [q.same_observer_calls(x) for x in forms]]
+
+        found = None      # ("iter", same, established_at) | ("key", established_at)
+        erased_by_key = None
+        for i in searches:
+            e = evs[i]
+            sh = q.short(e.a)
+            fr = (e.extra or {}).get("ret")
+            if sh in ("find", "lower_bound"):
+                same = same_as(fr)
+                # the comparison with end() may be written either way round (`it != end` asserted, or `it == end` aborting)
+                chk = [j for j, a in aborts if j > i and q.mentions(a.a, same) and
+                       q.mentions(a.a, lambda x: isinstance(x, tuple) and x[:1] == ("ucall",) and q.short(x[2]) in ("operator!=", "operator=="))]
+                if sh == "lower_bound":
+                    keyeq = [j for j, a in aborts if j > i and a.a[:2] == ("cmp", "==") and q.mentions(a.a, same) and q.mentions(a.a, lambda x: x == idx) and
+                             q.mentions(a.a, lambda x: isinstance(x, tuple) and x[:1] == ("fld",) and x[2] == "first")]
+                    chk = [max(chk[0], keyeq[0])] if chk and keyeq else []
+                if chk and found is None:
+                    found = ("iter", same, chk[0])
+            elif sh in ("count", "contains"):
+                nz = nonzero(fr, i)
+                if nz and found is None:
+                    found = ("key", nz[0])
+            elif sh == "erase":
+                nz = nonzero(fr, i)
+                if nz:
+                    erased_by_key = i
+        if found is None and erased_by_key is None:
             rep.violation("R-C15-table", site(f), "existence of the token is not checked (abort) before it is used", f["loc"], inst)
             return
         if use == "erase":
-            er = [i for i, e in enumerate(evs) if e.kind == "CALL" and q.short(e.a) == "erase" and i > chk[0] and any(q.mentions(a, same) for a in e.b)]
-            if len(er) != 1:
+            allerase = [i for i, e in enumerate(evs) if e.kind == "CALL" and q.short(e.a) == "erase" and on_map(e)]
+            good = []
+            for i in allerase:
+                a = argvals(evs[i])
+                if i == erased_by_key:
+                    good.append(i)
+                elif found and found[0] == "iter" and i > found[2] and any(q.mentions(x, found[1]) for x in evs[i].b):
+                    good.append(i)
+                elif found and found[0] == "key" and i > found[1] and len(a) == 1 and strip_casts(a[0]) == idx:
+                    good.append(i)
+            if len(allerase) != 1 or good != allerase:
                 rep.violation("R-C15-table", site(f), "the element found is not the element erased (after the existence check)", f["loc"], inst)
                 return
         else:
             rv = p.retval
-            if not (rv is not None and q.mentions(rv, same) and q.mentions(rv, lambda x: isinstance(x, tuple) and x[:1] == ("fld",) and x[2] == "second")):
+            ok = False
+            if found and found[0] == "iter":
+                ok = rv is not None and q.mentions(rv, found[1]) and q.mentions(rv, lambda x: isinstance(x, tuple) and x[:1] == ("fld",) and x[2] == "second")
+            elif found and found[0] == "key":
+                cells = [(evs[i].extra or {}).get("ret") for i in searches if i > found[1] and q.short(evs[i].a) in ("at", "operator[]")]
+                ok = rv is not None and any(rv == ("rd", c_) or rv == c_ for c_ in cells)
+            if not ok:
                 rep.violation("R-C15-table", site(f), "lookup does not return the pointer stored under the token found (returned %s)" % fmt(rv), f["loc"], inst)
                 return
-    rep.ok("R-C15-table", site(f), "search, existence abort check, then %s of the element found" % use, inst)
+    rep.ok("R-C15-table", site(f), "search for the token, existence abort check, then %s of the element found" % use, inst)
 
 
 def check_store_idx(rep, db, f, inst):
